@@ -20,7 +20,7 @@ LEVEL = "exploration"
 RULE = (
     "Text = 1..5 tag lines + filler.  Tag line = {SPDX-License-Identifier, SPDX-FileContributor, copyright with one of the ten prefixes or "
     "SPDX-SnippetCopyrightText} x value (SPDX expression grammar / holder grammar / years) x one of 27 comment styles x form {bare, single-line, "
-    "inline multi-line, block multi-line, terminator on the tag's own line, ASCII-art frame} x indentation x trailing blanks x tab after the colon.  "
+    "inline multi-line, block multi-line, terminator on the tag's own line, two stacked terminators in either order with / without a blank between, ASCII-art frame} x indentation x trailing blanks x tab after the colon.  "
     "Function level: extract_reuse_info must return exactly the by-construction sets (or raise for an unparseable expression).  File level: the same "
     "content as bytes with LF/CRLF/CR, a tag ending at byte 4090..4096 or starting at byte 4096..4100, with/without SPDX-SnippetBegin, with/without an "
     "unparseable expression, in the file or its .license sibling, read through `reuse lint --json`.  Non-trivial = some tag carries decoration "
@@ -37,7 +37,7 @@ FRAMES = ["|*", "##", "**", "#", "*", "//", "|", ";;", "%%"]
 WS = [" ", "  ", "\t"]
 # tag names without a value: such a line states nothing, and the line after it is read as usual
 EMPTY_TAGS = ["SPDX-License-Identifier:", "# SPDX-License-Identifier:", "// SPDX-License-Identifier: ", " * SPDX-License-Identifier:\t", "SPDX-FileContributor:",
-              "# SPDX-FileContributor:", "-- SPDX-FileContributor:", "License: see SPDX-License-Identifier:"]
+              "# SPDX-FileContributor:", "-- SPDX-FileContributor:", "License: see SPDX-License-Identifier:", "# SPDX-FileContributor:  ", "SPDX-FileContributor: \t"]
 
 
 def _norm_expr(value):
@@ -75,7 +75,7 @@ def tag(draw, allow_invalid=False):
 def tag_segment(draw, allow_invalid=False):
     """A list of physical lines holding exactly one tag."""
     t = draw(tag(allow_invalid))
-    form = draw(st.sampled_from(["bare", "single", "single", "inline", "block", "lastline", "frame"]))
+    form = draw(st.sampled_from(["bare", "single", "single", "inline", "block", "lastline", "frame", "stacked"]))
     indent = draw(st.sampled_from(["", "", "  ", "\t", "    "]))
     trailing = draw(st.sampled_from(["", "", "", " ", "  ", "\t"]))
     prefix_text = ""
@@ -98,6 +98,15 @@ def tag_segment(draw, allow_invalid=False):
         start, mid, end = S.STYLES[style][1]
         lines = [f"{indent}{start}", f"{indent}{mid} {t['text']} {end.strip()}{trailing}"]
         prefix_text = mid.strip()
+    elif form == "stacked":
+        # a comment inside a comment: two terminators after the value, in either order, with or without a blank between them
+        # ('<!-- /* ... */ -->', '(* <!-- ... -->*)', '-->-->')
+        multis = [s_ for s_ in S.STYLES if S.has_multi(s_)]
+        style = draw(st.sampled_from(multis))
+        inner = draw(st.sampled_from(multis))
+        gap = draw(st.sampled_from(["", "", " ", "  "]))
+        lines = [f"{indent}{S.STYLES[style][1][0]} {S.STYLES[inner][1][0]} {t['text']} {S.STYLES[inner][1][2].strip()}{gap}{S.STYLES[style][1][2].strip()}{trailing}"]
+        prefix_text = S.STYLES[style][1][0]
     elif form == "frame":
         style = "frame"
         p = draw(st.sampled_from(FRAMES))
@@ -129,6 +138,8 @@ def text_case(draw, allow_invalid=True):
         segs.append(draw(tag_segment(allow_invalid)))
         if draw(st.integers(0, 2)) == 0:
             segs.append({"lines": [draw(st.sampled_from(FILLER))], "tag": None})
+    if draw(st.integers(0, 7)) == 0:
+        segs[0] = dict(segs[0], lines=["\ufeff" + segs[0]["lines"][0]] + segs[0]["lines"][1:], bom=True)
     return segs
 
 
@@ -169,7 +180,7 @@ def check_text(ctx, segs):
     ctx.count(text, nontrivial=any(t["form"] != "bare" for t in tags),
               labels=[f"form:{t['form']}" for t in tags] + [f"style:{t['style']}" for t in tags] + [f"kind:{t['kind']}" for t in tags]
               + (["trailing-after-terminator"] if any(t["trailing"] and t["form"] in ("inline", "lastline", "frame") for t in tags) else [])
-              + (["valueless-tag-line-before-a-tag"] if any(s.get("empty_tag") for s in segs) else []),
+              + (["valueless-tag-line-before-a-tag"] if any(s.get("empty_tag") for s in segs) else []) + (["byte-order-mark-first"] if segs[0].get("bom") else []),
               sample=case)
     try:
         info = extract_reuse_info(text)
